@@ -279,6 +279,31 @@ fn unaddressed_variants(d: &DObj, top: &BTreeSet<String>, nested: &BTreeSet<Stri
         }
     }
     out.push(a);
+    // decoys: top-level fields named like the inner segments of the written paths (`o1.l[1]` names
+    // `l` only inside `o1`; a top-level `l` is not addressed by anything)
+    let mut decoy = d.clone();
+    let mut decoyed = false;
+    for key in top.iter() {
+        for seg in key.split('.').skip(1) {
+            let (name, indexed) = match seg.split_once('[') {
+                Some((n, _)) => (n, true),
+                None => (seg, false),
+            };
+            if name.is_empty() || addressed.contains(name) || decoy.get_val(name).is_some() {
+                continue;
+            }
+            let v = if indexed {
+                DocVal::arr(vec![DocVal::s("a"), DocVal::s("a"), DocVal::s("a")])
+            } else {
+                DocVal::s("a")
+            };
+            decoy.set(name, v);
+            decoyed = true;
+        }
+    }
+    if decoyed {
+        out.push(decoy);
+    }
     // remove / alter existing unaddressed top-level fields
     let mut r = d.clone();
     r.0.retain(|(k, _)| addressed.contains(k));
@@ -340,6 +365,7 @@ pub fn run(tier: &str, seed: u64) -> i32 {
         matrix key; (2) documents that differ only in fields no predicate addresses - fields added (including ones \
         named U+0000..U+0003), removed or altered at the top level, and unaddressed keys added inside every nested \
         object - get the same verdict under every switch set; the recording and the plain document agree. \
+        Unaddressed variants include top-level decoys named like the inner segments of the written paths. \
         Non-trivial: the (optimised) expression holds a matrix or a nested block; distinct by rule text."
         .into();
     let findings = load_findings();
